@@ -37,6 +37,10 @@ class MinMaxValue(GenericValue):
         return self._file._value_to_code(self._new_value)
 
     def _get_changes(self) -> Iterator[Change]:
+        if self._new_value is undefined:
+            # nothing was recorded (the value could not be copied, the test got a UsageError)
+            return
+
         new_token = value_to_token(self._new_value)
         try:
             old_value_is_correct = self.cmp(self._old_value, self._new_value)
